@@ -60,12 +60,12 @@ def parseOptAddr (s : String) : Option (Option (Bytes × Int)) :=
 
 def parseView (s : String) : Option StunView :=
   match s.splitOn "," with
-  | [bits, x, m] =>
-    match bits.toList, parseOptAddr x, parseOptAddr m with
-    | [a, b, c], some x, some m =>
+  | [bits, x, m, tx] =>
+    match bits.toList, parseOptAddr x, parseOptAddr m, ofHex tx with
+    | [a, b, c], some x, some m, some tx =>
       if (a = '0' ∨ a = '1') ∧ (b = '0' ∨ b = '1') ∧ (c = '0' ∨ c = '1')
-      then some ⟨a = '1', b = '1', c = '1', x, m⟩ else none
-    | _, _, _ => none
+      then some ⟨a = '1', b = '1', c = '1', x, m, tx⟩ else none
+    | _, _, _, _ => none
   | _ => none
 
 /-- (input, the address token to echo) -/
@@ -142,7 +142,25 @@ def stepConn (c : Conn) (line : String) : Conn × String :=
     | none => (c, "bad-op")
   | ["drain"] =>
     ({ c with events := [], stun := [] },
-      s!"ev {showList (c.events.map showEvent)} stun {showList (c.stun.map showAP)}")
+      s!"ev {showList (c.events.map showEvent)} stun {showList (c.stun.map (fun e => showAP e.addr))}")
+  | ["discover", tx, ans] =>
+    -- DiscoverWithDemux with one open transaction `tx`; `ans` = n | the server's answer as a packet spec
+    let answer : Option (Option PktIn) :=
+      if ans = "n" then some none
+      else match parseInput ans with
+        | some (.pkt p, _) => some (some p)
+        | _ => none
+    match ofHex tx, answer with
+    | some tx, some answer =>
+      match discover H c [tx] answer with
+      | .ok (c', r) =>
+        let q := s!"q={c'.events.length},{c'.stun.length}"
+        match r with
+        | .addrs as => (c', s!"addrs {showList (as.map showAP)} {q}")
+        | .failed => (c', s!"failed {q}")
+      | .reject => (c, "reject")
+      | .panic => (c, "panic")
+    | _, _ => (c, "bad-op")
   | ["conc", st, vo, specs] =>
     match parseReg st, parseReg vo, parseInputs specs with
     | some st, some vo, some ins =>
